@@ -41,8 +41,8 @@ ToPkt(j) == [src |-> j.src, dst |-> j.dst, ci |-> j.ci, ch |-> j.ch, sl |-> j.sl
              hops |-> [i \in (j.hw + 1)..(j.hw + Len(j.hops)) |-> ToHop(j.hops[i - j.hw])]]
 
 NoAt == [as |-> "", scope |-> "none", inif |-> 0, r |-> -1, from |-> -1]
-St0 == [reqDelivered |-> FALSE, repDelivered |-> FALSE, died |-> 0, hopsSeen |-> 0,
-        scmpFrom |-> "", scmpIf |-> -1, answered |-> 0, scmpDelivered |-> FALSE]
+St0 == [refVisits |-> <<>>, refOK |-> FALSE, reqDelivered |-> FALSE, repDelivered |-> FALSE, died |-> 0, hopsSeen |-> 0,
+        answered |-> 0, answer |-> "", scmpDelivered |-> FALSE]
 EmptyJ == [id |-> 0, mode |-> "", src |-> "", dst |-> "", sh |-> "", dh |-> "", ifs |-> <<>>,
            pt |-> "", l4 |-> "", rev |-> ""]
 EmptyT == [name |-> "", ases |-> <<>>, links |-> <<>>, ends |-> {}]
@@ -162,12 +162,68 @@ DriftCheck ==
     IN IF same THEN TRUE
        ELSE Drift("router-step:model=" \o s.disp \o ",impl=" \o OutcomeKey \o "@" \o HopKey(R.pre))
 
+\* ------------------------------------------------------------------ C04: single-value tampering
+\* first hop field (0-based) whose MAC input depends on the altered value: the hop itself for
+\* ConsIngress / ConsEgress / ExpTime / MAC, the first hop of the segment for SegID / Timestamp
+\* (in either direction the first hop traversed is validated against the info field as sent)
+DepHop(kind, pos, sl) ==
+    IF kind \in {"hop.in", "hop.eg", "hop.exp", "hop.mac"} THEN pos
+    ELSE IF pos = 0 THEN 0 ELSE IF pos = 1 THEN sl[1] ELSE sl[1] + sl[2]
+\* hop fields validated by the router visit that receives the packet with CurrHF = c
+ValidatedAt(p0, c) ==
+    LET p == [p0 EXCEPT !.ch = c, !.ci = InfIdx(p0, c)] IN
+    IF IsXover(p) /\ ~PeerOf(p) THEN {c, c + 1} ELSE {c}
+C04V(p0) ==
+    LET h == DepHop(R.kind, R.pos, p0.sl)
+        vs == {v \in DOMAIN st.refVisits : h \in ValidatedAt(p0, st.refVisits[v])}
+        bound == IF vs = {} THEN 0 ELSE CHOOSE v \in vs : \A u \in vs : v <= u
+        p == [p0 EXCEPT !.ch = h, !.ci = InfIdx(p0, h)]
+        cls == PosClass(p) \o (IF CurInf(p).c THEN ":cons" ELSE ":noncons")
+    IN IF R.delivered THEN R.kind \o ":delivered-to-destination@" \o cls
+       ELSE IF R.hostas # -1 THEN R.kind \o ":handed-to-a-host@" \o cls
+       ELSE IF bound = 0 THEN "harness:dependent-hop-never-validated"
+       ELSE IF R.died + 1 > bound THEN R.kind \o ":survives-first-dependent-validation@" \o cls
+       ELSE ""
+Ref == /\ st' = [st EXCEPT !.refVisits = R.visits, !.refOK = R.delivered]
+       /\ UNCHANGED <<topo, J, leg, k, at, failed>>
+\* every tamper line is an independent case: no latch
+Tamper == /\ IF Prop = "C04" /\ st.refOK
+             THEN LET v == Force({C04V(Force({ToPkt(J.pkt)}))}) IN
+                  IF v = "" THEN TRUE ELSE PrintT(<<"VERIF-BAD", l, v>>)
+             ELSE TRUE
+          /\ UNCHANGED <<topo, J, leg, k, at, st, failed>>
+
+\* ------------------------------------------------------------------ C10
+\* C10: an answer on its way back must be forwarded by every router and handed to the source host
+C10HopVerdict ==
+    IF R.disp # "forward" THEN "not-forwarded:" \o OutcomeKey \o "@" \o HopKey(R.pre)
+    ELSE IF R.out = "int" /\ (R.as # J.src \/ R.dst # J.sh) THEN "delivered-elsewhere@" \o HopKey(R.pre)
+    ELSE IF R.out \notin {"int", "ext", "sib"} THEN "forwarded-to-unknown-link@" \o HopKey(R.pre)
+    ELSE ""
+
+ScmpKey == "t" \o ToString(R.m.type) \o "c" \o ToString(R.m.code)
+\* traceroute: answered by the router that owns the flagged interface, with (local IA, interface)
+AlertVerdict ==
+    IF ~R.built \/ ~R.m.is THEN "traceroute:no-reply-built"
+    ELSE IF R.m.type # 131 THEN "traceroute:answered-with-" \o ScmpKey
+    ELSE IF st.answered >= 1 THEN "traceroute:answered-twice"
+    ELSE IF R.as # J.desc.as THEN "traceroute:answered-by-another-as:" \o J.desc.side
+    ELSE IF ~HasIf(topo, R.as, J.desc["if"]) \/ EndOf(topo, R.as, J.desc["if"]).r # R.r
+         THEN "traceroute:answered-by-router-not-owning-the-interface:" \o J.desc.side
+    ELSE IF R.m.ia # R.as \/ R.m["if"] # J.desc["if"] THEN "traceroute:reply-reports-other-interface:" \o J.desc.side
+    ELSE ""
+
 \* ------------------------------------------------------------------ events
 TopoEv == /\ topo' = WithEnds(R.t) /\ UNCHANGED <<J, leg, k, at, st, failed>>
 
 \* a journey that ends without the delivery its property demands
 JourneyEnd ==
-    IF failed \/ J.mode # "honest" THEN ""
+    IF failed THEN ""
+    ELSE IF Prop = "C10" /\ J.mode \in {"fault", "alert"} THEN
+        IF st.answered >= 1 /\ ~st.scmpDelivered THEN "answer:" \o st.answer \o ":not-delivered-to-source"
+        ELSE IF J.mode = "alert" /\ st.answered = 0 THEN "traceroute:not-answered:" \o J.desc.side
+        ELSE ""
+    ELSE IF J.mode # "honest" THEN ""
     ELSE IF Prop = "C02" /\ ~st.reqDelivered /\ Len(J.ifs) > 0 THEN "req:journey-ends-without-delivery"
     ELSE IF Prop = "C03" /\ st.reqDelivered /\ J.rev # "none" /\ ~st.repDelivered
          THEN "rep:journey-ends-without-delivery"
@@ -187,6 +243,8 @@ Advance ==
                         !.reqDelivered = @ \/ (leg = "req" /\ R.disp = "forward" /\ R.out = "int"
                                                /\ R.as = J.dst /\ R.dst = J.dh),
                         !.repDelivered = @ \/ (leg = "rep" /\ R.disp = "forward" /\ R.out = "int"
+                                               /\ R.as = J.src /\ R.dst = J.sh),
+                        !.scmpDelivered = @ \/ (leg = "scmp" /\ R.disp = "forward" /\ R.out = "int"
                                                /\ R.as = J.src /\ R.dst = J.sh)]
     /\ UNCHANGED <<topo, J, leg, failed>>
 
@@ -199,8 +257,9 @@ Hop ==
              ELSE IF Prop = "C03" /\ honest /\ leg = "rep" THEN HonestHopVerdict
              ELSE IF Prop = "C22" /\ honest /\ leg \in {"req", "rep"} THEN C22Verdict
              ELSE IF Prop = "C07" THEN C07Verdict
+             ELSE IF Prop = "C10" /\ leg = "scmp" /\ J.mode \in {"fault", "alert"} THEN C10HopVerdict
              ELSE ""
-    IN IF v # "" THEN Bad(leg \o ":" \o v)
+    IN IF v # "" THEN Bad((IF leg = "scmp" THEN "answer:" \o st.answer ELSE leg) \o ":" \o v)
        ELSE /\ (honest /\ leg \in {"req", "rep"} => DriftCheck)
             /\ Advance
 
@@ -214,15 +273,20 @@ Reply == \* the destination host answers along the reversed path (real reversal 
          /\ UNCHANGED <<topo, J, st, failed>>
 
 Scmp == \* the slow path produced (or not) an answer
-    IF J.mode = "honest" /\ Prop \in {"C02", "C03"} /\ leg \in {"req", "rep"} /\
-       ((Prop = "C02" /\ leg = "req") \/ (Prop = "C03" /\ leg = "rep"))
+    IF J.mode = "honest" /\ ((Prop = "C02" /\ leg = "req") \/ (Prop = "C03" /\ leg = "rep"))
     THEN Bad(leg \o ":slow-path-on-honest-journey")
-    ELSE /\ leg' = "scmp" /\ k' = 0
+    ELSE IF Prop = "C10" /\ J.mode = "alert" /\ leg = "req" /\ ~R.err /\ AlertVerdict # "" THEN Bad(AlertVerdict)
+    ELSE LET ans == ~R.err /\ R.built /\ R.m.is IN
+         /\ leg' = "scmp" /\ k' = 0
          /\ at' = IF R.err THEN NoAt
                   ELSE IF R.out = "ext" THEN NextAt(R.as, R.r, "ext", R.inif, R.dst)
                   ELSE IF R.out = "sib" THEN [as |-> R.as, scope |-> "sib", inif |-> 0, r |-> -1, from |-> R.r]
                   ELSE NoAt
-         /\ UNCHANGED <<topo, J, st, failed>>
+         /\ st' = IF ans /\ leg # "scmp"
+                  THEN [st EXCEPT !.answered = @ + 1, !.answer = ScmpKey,
+                                  !.scmpDelivered = R.out = "int" /\ R.as = J.src /\ R.dst = J.sh]
+                  ELSE st
+         /\ UNCHANGED <<topo, J, failed>>
 
 HostErr ==
     IF Prop = "C03" /\ J.mode = "honest" THEN Bad("rep:host-cannot-reverse:" \o R.what)
@@ -237,6 +301,8 @@ Step == /\ l <= Len(Trace)
            ELSE CASE R.ev = "hop" -> Hop
                   [] R.ev = "host" -> Host
                   [] R.ev = "reply" -> Reply
+                  [] R.ev = "ref" -> Ref
+                  [] R.ev = "tamper" -> Tamper
                   [] R.ev = "scmp" -> Scmp
                   [] R.ev = "hosterr" -> HostErr
                   [] R.ev = "stuck" -> Bad("packet-loops")
